@@ -273,6 +273,7 @@ def evaluate(cases, res):
                 f1 = c02.BUILD[t](case)
                 m = bytes(f1.message)
                 o["message"] = m
+                o["held"] = (f1, f1.bytes)     # re-read once every other frame of the run has been built
                 f2 = type(f1)(message=bytearray(m))
                 back = f2.data[ATTR_NETWORK if t == "net" else ATTR_VERSION]
                 orig = f1.data[ATTR_NETWORK if t == "net" else ATTR_VERSION]
@@ -325,6 +326,25 @@ def evaluate(cases, res):
             impl[ci] = o
             ask(ci, "ma", c02.model_line(dict(t="req", name=case["name"], args=case["args"])))
             ask(ci, "mb", c02.model_line(dict(t="req", name=case["name"], args=case["args2"])))
+    # frames built from data keep their own payload: building / serialising later frames must not
+    # change what an earlier, still live frame carries (shared buffers, class-level caches)
+    if any(isinstance(o, dict) and "held" in o for o in impl):
+        # two fixed neighbours, so that a single replayed case has "other frames" too
+        for other in (dict(t="ver", a=9, b=8, c=7, tag="a1b2", sv=3, dev="c3d4", sig="e5f6a7", sd=69),
+                      dict(c02.DEFAULT_NET, eth=[9, 8, 7, 6, 255, 0, 0, 0, 5, 4, 3, 2], ssid="neighbour", sig=37, srv=False)):
+            try:
+                c02.BUILD[other["t"]](other).bytes  # noqa: B018
+            except Exception:  # noqa: BLE001
+                pass
+    for ci, case in enumerate(cases):
+        o = impl[ci]
+        if case["t"] in ("net", "ver") and isinstance(o, dict) and "held" in o:
+            f1, b1 = o.pop("held")
+            try:
+                o["later"] = (bytes(f1.message), f1.bytes)
+            except Exception as e:  # noqa: BLE001
+                o["later"] = type(e).__name__
+            o["first_bytes"] = b1
     outs = fi.read_many(streams) if streams else []
     for ci, o in zip(rt_idx, outs):
         impl[ci]["outs"] = o
@@ -517,6 +537,11 @@ def compare_codec(case, o, answers, res):
         return
     if adm and (not o["same"] or o["back"] != o["orig"]):
         res.fail("spec", case, o["orig"], o["back"], "building from data and decoding does not return the same data")
+        return
+    if adm and "later" in o and o["later"] != (o["message"], o["first_bytes"]):
+        later = o["later"] if isinstance(o["later"], str) else (o["later"][0].hex(), o["later"][1].hex())
+        res.fail("spec", case, (o["message"].hex(), o["first_bytes"].hex()), later,
+                 "a frame built from data no longer carries its own payload after other frames were built")
         return
     if enc == "none" or hexs(o["message"]) != enc:
         res.fail("corr", case, enc, o["message"].hex(), "encoder model and create_message differ")
